@@ -10,12 +10,380 @@ half-processed frame is value level), termination of third-party parsers.
 from __future__ import annotations
 
 import ast
+import copy
+import itertools
 import re
 
+from .. import sem
 from ..prog import AnalysisError, FuncInfo, dotted, unparse
 from ..summaries import MayRaise, TOP, Wiring
 
 PROP = "C04"
+
+
+# --------------------------------------------------------------------------------------------
+# propositional reasoning over canonical condition atoms (sem.atoms): guards are compared by truth table, not by text
+# --------------------------------------------------------------------------------------------
+def _split_args(inner: str) -> list:
+    out, depth, cur, q = [], 0, "", None
+    for ch in inner:
+        if q:
+            cur += ch
+            if ch == q:
+                q = None
+            continue
+        if ch in "'\"":
+            q = ch
+        elif ch in "([{":
+            depth += 1
+        elif ch in ")]}":
+            depth -= 1
+        elif ch == "," and depth == 0:
+            out.append(cur)
+            cur = ""
+            continue
+        cur += ch
+    out.append(cur)
+    return out
+
+
+def _lit(atom: str):
+    """Literal formula of one canonical atom; `ge(x,y)` is expressed as `not gt(y,x)` so that complementary order
+    tests share one propositional variable."""
+    neg = atom.startswith("!")
+    a = atom[1:] if neg else atom
+    if a.startswith("ge(") and a.endswith(")"):
+        parts = _split_args(a[3:-1])
+        if len(parts) == 2:
+            a, neg = f"gt({parts[1]},{parts[0]})", not neg
+    f = ("lit", a)
+    return ("not", f) if neg else f
+
+
+def formula(node: ast.AST, pol: bool = True):
+    """Propositional formula (True / False / ('lit', atom) / ('not', f) / ('and', [..]) / ('or', [..])) of a condition."""
+    if isinstance(node, ast.UnaryOp) and isinstance(node.op, ast.Not):
+        return formula(node.operand, not pol)
+    if isinstance(node, ast.BoolOp):
+        conj = isinstance(node.op, ast.And) == pol
+        return ("and" if conj else "or", [formula(v, pol) for v in node.values])
+    if isinstance(node, ast.Constant):
+        return bool(node.value) == pol
+    if isinstance(node, ast.Compare) and len(node.ops) > 1:
+        parts, left = [], node.left
+        for op, right in zip(node.ops, node.comparators):
+            parts.append(formula(ast.Compare(left=left, ops=[op], comparators=[right]), True))
+            left = right
+        f = ("and", parts)
+        return f if pol else ("not", f)
+    if isinstance(node, ast.Compare) and isinstance(node.ops[0], (ast.In, ast.NotIn)) \
+            and isinstance(node.comparators[0], (ast.Tuple, ast.List, ast.Set)):
+        f = ("or", [formula(ast.Compare(left=node.left, ops=[ast.Eq()], comparators=[e]), True)
+                    for e in node.comparators[0].elts])
+        return f if pol != isinstance(node.ops[0], ast.NotIn) else ("not", f)
+    ats = sem.atoms(node, pol)
+    if len(ats) == 1:
+        return _lit(ats[0])
+    return ("and", [_lit(a) for a in ats])
+
+
+def f_atoms(f, acc=None) -> set:
+    acc = set() if acc is None else acc
+    if isinstance(f, tuple):
+        if f[0] == "lit":
+            acc.add(f[1])
+        elif f[0] == "not":
+            f_atoms(f[1], acc)
+        else:
+            for x in f[1]:
+                f_atoms(x, acc)
+    return acc
+
+
+def f_eval(f, env: dict) -> bool:
+    if isinstance(f, bool):
+        return f
+    if f[0] == "lit":
+        return env[f[1]]
+    if f[0] == "not":
+        return not f_eval(f[1], env)
+    if f[0] == "and":
+        return all(f_eval(x, env) for x in f[1])
+    return any(f_eval(x, env) for x in f[1])
+
+
+def f_show(f) -> str:
+    if isinstance(f, bool):
+        return str(f)
+    if f[0] == "lit":
+        return f[1]
+    if f[0] == "not":
+        return "not " + f_show(f[1])
+    return "(" + (" and " if f[0] == "and" else " or ").join(f_show(x) for x in f[1]) + ")"
+
+
+def relevant(premises: list, goal) -> list:
+    """Premises that share an atom with the goal (a premise about something else cannot help to derive it)."""
+    ga = f_atoms(goal)
+    return [p for p in premises if f_atoms(p) & ga]
+
+
+def valid(f, limit: int = 14):
+    """True / False when `f` holds under every valuation of its atoms; None when there are too many atoms to decide."""
+    names = sorted(f_atoms(f))
+    if len(names) > limit:
+        return None
+    for vals in itertools.product((False, True), repeat=len(names)):
+        if not f_eval(f, dict(zip(names, vals))):
+            return False
+    return True
+
+
+def implies(premises: list, goal):
+    return valid(("or", [("not", ("and", list(premises))), goal]))
+
+
+def fold_consts(prog, mod, node: ast.AST, local_names=()) -> ast.AST:
+    """Copy of `node` with every sub-expression that folds to a module-level constant replaced by that constant."""
+    class T(ast.NodeTransformer):
+        def _try(self, n):
+            if isinstance(n, ast.Name) and (n.id in local_names or "@" in n.id):
+                return None
+            v = prog.try_fold(mod, n)
+            if isinstance(v, (int, float, str, bytes)) and not isinstance(v, bool):
+                return ast.Constant(value=v)
+            return None
+
+        def visit_Name(self, n):
+            return self._try(n) or n
+
+        def visit_Attribute(self, n):
+            return self._try(n) or self.generic_visit(n)
+
+        def visit_BinOp(self, n):
+            n = self.generic_visit(n)
+            return self._try(n) or n
+    return T().visit(copy.deepcopy(node))
+
+
+def guard_formulas(prog, fl, st, local_names=(), primary: bool = False) -> list:
+    """Formulas of the conditions certainly in force in state `st` (locals expanded, constants folded).
+    `primary`: only the tests written in the function itself (facts derived by inlining a predicate callee or by
+    re-normalising an expansion are consequences of those and are left out)."""
+    out, seen = [], set()
+    for f in st.facts:
+        if f.kind != "cond" or (primary and f.xnode is f.node):
+            continue
+        g = formula(fold_consts(prog, fl.fi.module, f.xnode, local_names), f.pol)
+        k = repr(g)
+        if k not in seen:
+            seen.add(k)
+            out.append(g)
+    return out
+
+
+# --------------------------------------------------------------------------------------------
+# statements of an exception handler that cannot raise (stated list; implicit TypeErrors of `+` are decided here)
+# --------------------------------------------------------------------------------------------
+LOG_METHODS = {"debug", "info", "warning", "warn", "error", "exception", "critical", "log"}
+_SPEC = re.compile(r"%(\([^)]*\))?[-#0 +]*(\*|\d+)?(?:\.(\*|\d+))?[hlL]?([a-zA-Z%])")
+
+
+class HandlerSafety:
+    """Decides, for the body of one `except` clause, that no statement in it can raise.
+
+    Allowed: pass / continue / break / bare return; `name = <safe expr>`; print(...) and logger calls whose arguments
+    are safe expressions; `if <safe test>:` over allowed statements.  Safe expressions: constants, bound names,
+    f-strings, str()/repr()/ascii()/format() of a safe expression, type(x).__name__, `e.args` of the bound exception,
+    `<str> + <str>` where BOTH operands are known to be strings, `<literal> % <args>` with matching %s/%r/%a
+    conversions, tuples of safe expressions, sys.stdout / sys.stderr.  Everything else (in particular
+    `<str literal> + <exception object>` and calls of anything else) is reported."""
+
+    def __init__(self, prog, fi, fl, handler: ast.ExceptHandler, try_stmt: ast.Try):
+        self.P, self.fi, self.fl, self.h = prog, fi, fl, handler
+        self.bound_before = set(fl.state_at(try_stmt).defs)
+        self.assigned = set()
+        self.reasons: list = []
+
+    # -- names
+    def _builtin(self, call: ast.Call, names) -> bool:
+        return isinstance(call.func, ast.Name) and call.func.id in names and \
+            self.P.call_targets(self.fi, call, count=False) == [f"ext:{call.func.id}"]
+
+    def _bound(self, name: str) -> bool:
+        if name == self.h.name or name in self.assigned or name in self.bound_before:
+            return True
+        if self.P.resolve_name(self.fi.module, name) is not None or name in self.fi.module.imports:
+            return True
+        return hasattr(__import__("builtins"), name)
+
+    # -- expressions: returns 'str' / 'exc' / 'num' / 'other' (safe, of that kind) or None (may raise)
+    def kind(self, e: ast.AST, st):
+        if isinstance(e, ast.Constant):
+            if isinstance(e.value, str):
+                return "str"
+            return "num" if isinstance(e.value, (int, float)) and not isinstance(e.value, bool) else "other"
+        if isinstance(e, ast.Name):
+            if not self._bound(e.id):
+                return None
+            if e.id == self.h.name and e.id not in self.assigned:
+                return "exc"
+            x = self.fl.expand(e, st)
+            if isinstance(x, ast.Name):
+                return "other"
+            k = self.kind_of_value(x)
+            return k or "other"
+        if isinstance(e, ast.JoinedStr):
+            for v in e.values:
+                if isinstance(v, ast.FormattedValue):
+                    k = self.kind(v.value, st)
+                    if k is None:
+                        return None
+                    if v.format_spec is not None and not (v.conversion != -1 or k == "str"):
+                        return None
+                    if v.format_spec is not None and any(not isinstance(x, ast.Constant) for x in v.format_spec.values):
+                        return None
+            return "str"
+        if isinstance(e, ast.Call):
+            if self._builtin(e, {"str", "repr", "ascii", "format"}) and len(e.args) == 1 and not e.keywords:
+                return "str" if self.kind(e.args[0], st) is not None else None
+            if self._builtin(e, {"type"}) and len(e.args) == 1 and not e.keywords:
+                return "other" if self.kind(e.args[0], st) is not None else None
+            return None
+        if isinstance(e, ast.Attribute):
+            if e.attr == "__name__":
+                v = e.value
+                if isinstance(v, ast.Call) and self._builtin(v, {"type"}) and len(v.args) == 1 and self.kind(v.args[0], st):
+                    return "str"
+                if isinstance(v, ast.Attribute) and v.attr == "__class__" and self.kind(v.value, st):
+                    return "str"
+                return None
+            if e.attr == "args" and self.kind(e.value, st) == "exc":
+                return "other"
+            d = dotted(e)
+            if d in ("sys.stdout", "sys.stderr") and self.fi.module.imports.get("sys") == ("mod", "sys"):
+                return "other"
+            return None
+        if isinstance(e, ast.Tuple):
+            return "other" if all(self.kind(x, st) is not None for x in e.elts) else None
+        if isinstance(e, ast.BinOp) and isinstance(e.op, ast.Add):
+            a, b = self.kind(e.left, st), self.kind(e.right, st)
+            if a == "str" and b == "str":
+                return "str"
+            if a == "num" and b == "num":
+                return "num"
+            return None
+        if isinstance(e, ast.BinOp) and isinstance(e.op, ast.Mod) and isinstance(e.left, ast.Constant) \
+                and isinstance(e.left.value, str):
+            specs = [m for m in _SPEC.finditer(e.left.value) if m.group(4) != "%"]
+            if any(m.group(1) or m.group(2) == "*" or m.group(3) == "*" or m.group(4) not in "sra" for m in specs):
+                return None
+            if isinstance(e.right, ast.Tuple):
+                ok = len(e.right.elts) == len(specs) and all(self.kind(x, st) is not None for x in e.right.elts)
+            else:
+                ok = len(specs) == 1 and self.kind(e.right, st) in ("str", "exc", "num")
+            return "str" if ok else None
+        return None
+
+    def kind_of_value(self, x: ast.AST):
+        """Kind of an already evaluated (expanded) definition: only its type matters."""
+        if isinstance(x, ast.Constant):
+            return "str" if isinstance(x.value, str) else "other"
+        if isinstance(x, ast.JoinedStr):
+            return "str"
+        if isinstance(x, ast.Call) and isinstance(x.func, ast.Name) and x.func.id in ("str", "repr", "ascii", "format") \
+                and self.P.resolve_name(self.fi.module, x.func.id) is None:
+            return "str"
+        if isinstance(x, ast.BinOp) and isinstance(x.op, ast.Add):
+            return "str" if self.kind_of_value(x.left) == "str" and self.kind_of_value(x.right) == "str" else None
+        if isinstance(x, ast.BinOp) and isinstance(x.op, ast.Mod) and isinstance(x.left, ast.Constant) \
+                and isinstance(x.left.value, str):
+            return "str"
+        return None
+
+    def _test_ok(self, t: ast.AST, st) -> bool:
+        if isinstance(t, ast.UnaryOp) and isinstance(t.op, ast.Not):
+            return self._test_ok(t.operand, st)
+        if isinstance(t, ast.BoolOp):
+            return all(self._test_ok(v, st) for v in t.values)
+        if isinstance(t, ast.Call) and self._builtin(t, {"isinstance"}) and len(t.args) == 2 and not t.keywords:
+            cls = t.args[1].elts if isinstance(t.args[1], ast.Tuple) else [t.args[1]]
+            return self.kind(t.args[0], st) is not None and all(
+                dotted(c) and self._bound(dotted(c).split(".")[0]) for c in cls)
+        if isinstance(t, ast.Compare) and all(isinstance(o, (ast.Is, ast.IsNot)) for o in t.ops):
+            return all(self.kind(x, st) is not None for x in [t.left] + t.comparators)
+        return isinstance(t, (ast.Name, ast.Constant)) and self.kind(t, st) is not None
+
+    def _is_logger(self, recv: ast.AST) -> bool:
+        d = dotted(recv)
+        if d and self.fi.module.imports.get(d) == ("mod", "logging"):
+            return True
+        ts = self.P.expr_types(self.fi, recv)
+        return bool(ts) and all(isinstance(t, str) and t.split(":", 1)[-1] in ("logging.getLogger", "logging.Logger")
+                                for t in ts)
+
+    def _call_ok(self, c: ast.Call, st) -> str:
+        if self._builtin(c, {"print"}):
+            for a in c.args:
+                if isinstance(a, ast.Starred) or self.kind(a, st) is None:
+                    return f"argument `{unparse(a)[:60]}` of print can raise"
+            for kw in c.keywords:
+                if kw.arg in ("sep", "end", "flush") and isinstance(kw.value, ast.Constant):
+                    continue
+                if kw.arg == "file" and self.kind(kw.value, st) == "other" and dotted(kw.value) in ("sys.stdout", "sys.stderr"):
+                    continue
+                return f"keyword `{kw.arg}={unparse(kw.value)[:40]}` of print is not on the list"
+            return ""
+        if isinstance(c.func, ast.Attribute) and c.func.attr in LOG_METHODS and self._is_logger(c.func.value):
+            for a in c.args:
+                if isinstance(a, ast.Starred) or self.kind(a, st) is None:
+                    return f"argument `{unparse(a)[:60]}` of the logging call can raise"
+            for kw in c.keywords:
+                if kw.arg in ("exc_info", "stack_info", "stacklevel") and (
+                        isinstance(kw.value, ast.Constant) or self.kind(kw.value, st) == "exc"):
+                    continue
+                return f"keyword `{kw.arg}` of the logging call is not on the list"
+            return ""
+        return f"call `{unparse(c.func)[:60]}(...)` is not on the list of calls that cannot raise"
+
+    def _stmts(self, stmts: list) -> None:
+        for s in stmts:
+            st = self.fl.state_at(s)
+            where = f"line {s.lineno}"
+            if isinstance(s, (ast.Pass, ast.Continue, ast.Break)):
+                continue
+            if isinstance(s, ast.Return):
+                if s.value is not None and self.kind(s.value, st) is None:
+                    self.reasons.append(f"{where}: return value `{unparse(s.value)[:60]}` can raise")
+                continue
+            if isinstance(s, ast.Expr):
+                if isinstance(s.value, ast.Call):
+                    why = self._call_ok(s.value, st)
+                    if why:
+                        self.reasons.append(f"{where}: {why}")
+                elif self.kind(s.value, st) is None:
+                    self.reasons.append(f"{where}: expression `{unparse(s.value)[:60]}` can raise")
+                continue
+            if isinstance(s, ast.Assign) and len(s.targets) == 1 and isinstance(s.targets[0], ast.Name):
+                if self.kind(s.value, st) is None:
+                    self.reasons.append(f"{where}: `{unparse(s.value)[:60]}` can raise")
+                self.assigned.add(s.targets[0].id)
+                continue
+            if isinstance(s, ast.If):
+                if not self._test_ok(s.test, st):
+                    self.reasons.append(f"{where}: test `{unparse(s.test)[:60]}` is not on the list")
+                before = set(self.assigned)
+                self._stmts(s.body)
+                a1 = self.assigned
+                self.assigned = set(before)
+                self._stmts(s.orelse)
+                self.assigned = a1 & self.assigned
+                continue
+            self.reasons.append(f"{where}: statement `{type(s).__name__}` is not on the list of statements that cannot raise")
+
+    def check(self) -> list:
+        self._stmts(self.h.body)
+        return self.reasons
 
 
 def _leaves_loop(stmts) -> str:
@@ -178,26 +546,44 @@ def run(ctx):
             if isinstance(n, ast.Assign) and isinstance(n.value, ast.Call) and isinstance(n.value.func, ast.Attribute) \
                     and n.value.func.attr in ("recv", "recvfrom", "get", "receive") and isinstance(n.targets[0], ast.Name):
                 read_vars.add(n.targets[0].id)
+
+        def only_oserror(h):
+            if h.type is None:
+                return False
+            ids = [mr.alg.ident(fi, e) for e in (h.type.elts if isinstance(h.type, ast.Tuple) else [h.type])]
+            return bool(ids) and all(i is not None and mr.alg.is_sub(i, "OSError") for i in ids)
         k = 0
         for n in _loop_exits(loop):
             k += 1
-            why = None
             par_chain = []
             cur = n
             while cur is not loop:
                 cur = fl.parent[id(cur)]
                 par_chain.append(cur)
-            in_oserror = any(isinstance(p_, ast.ExceptHandler) and p_.type is not None and "OSError" in unparse(p_.type) and
+            in_oserror = any(isinstance(p_, ast.ExceptHandler) and only_oserror(p_) and
                              _guards_read(fl, p_, read_vars) for p_ in par_chain)
-            st = fl.state_at(n)
-            sentinel = any(f.kind == "cond" and f.pol and re.fullmatch(r"(\w+) is None", f.key) and f.key.split(" ")[0] in read_vars
-                           for f in st.facts) and fi.cls is not None and fi.cls.name != "RawLinkLayer"
+            fs = sem.facts(fl, n, expanded=False)
+            sentinel = any(sem.holds(fs, f"{v} is None") for v in sorted(read_vars)) \
+                and fi.cls is not None and fi.cls.name != "RawLinkLayer"
             ok = in_oserror or sentinel
             ctx.ob("C04.loop-exits", con, f"{type(n).__name__.lower()}#{k}", ok,
                    f"`{type(n).__name__.lower()}` at line {n.lineno} leaves the receive loop " +
                    ("on the link-down exit (" + ("OSError of the read call" if in_oserror else "stop sentinel") + ")" if ok else
                     "under a condition that depends on the received frame / on frame processing: one frame can end reception for good"),
                    f"{fi.module.rel}:{n.lineno}")
+        # no statement of a handler inside the loop can raise by itself (an exception raised while a bad frame is being
+        # reported leaves the thread just like an uncaught one)
+        hk = 0
+        for t in [x for x in ast.walk(loop) if isinstance(x, ast.Try)]:
+            for h in t.handlers:
+                reasons = HandlerSafety(P, fi, fl, h, t).check()
+                tname = "bare" if h.type is None else re.sub(r"\s+", "", unparse(h.type))
+                ctx.ob("C04.handler-total", con, f"handler#{hk}:{tname}", not reasons,
+                       f"`except {'' if h.type is None else unparse(h.type)}` at line {h.lineno}: " +
+                       ("every statement of the handler is on the cannot-raise list" if not reasons else
+                        "the handler itself can raise, which ends the receive thread on the first bad frame - " + "; ".join(reasons[:4])),
+                       f"{fi.module.rel}:{h.lineno}")
+                hk += 1
         # nothing escapes the thread function at all
         own = mr.of(fi)
         ctx.ob("C04.thread-survives", con, "escaping-classes", not own,
@@ -205,22 +591,66 @@ def run(ctx):
                fi.loc)
     ctx.floor("C04.escape", 16, "(loop, exception class) pairs")
 
+    ctx.floor("C04.handler-total", 5, "handlers inside the receive loops")
+
     # ---- address filter of the raw link layer
     raw = P.func("linklayer.raw_link_layer.RawLinkLayer.receive")
     fl = ctx.flows.get(raw)
     cbs = [c for c in P.calls_in(raw) if wiring.targets(raw, c) == [wiring.gn_indicate]]
+    if raw.cls is None or "mac_address" not in raw.cls.attr_types:
+        raise AnalysisError("C04: RawLinkLayer no longer stores its own address in `mac_address`")
+    reads = [n for n in ast.walk(raw.node) if isinstance(n, ast.Assign) and isinstance(n.value, ast.Call)
+             and isinstance(n.value.func, ast.Attribute) and n.value.func.attr in ("recv", "recvfrom")
+             and len(n.targets) == 1 and isinstance(n.targets[0], ast.Name)]
+    if len(reads) != 1:
+        raise AnalysisError(f"C04: {len(reads)} socket reads bound to a name in RawLinkLayer.receive (confirmed: 1)")
+    frame_var = reads[0].targets[0].id
+    if not cbs:
+        raise AnalysisError("C04: RawLinkLayer.receive no longer calls the receive callback")
+    BCAST = b"\xff" * 6
+    accepted, bad_guard, bad_payload, shown = [], [], [], []
+    to_us = foreign_bcast = None
     for i, c in enumerate(cbs):
         st = fl.state_at(c)
-        conds = [(f.xkey, f.pol) for f in st.facts if f.kind == "cond"]
-        own_dst = any(p and "[0:6] ==" in k and "mac_address" in k for k, p in conds)
-        bcast = any(p and "[0:6] ==" in k and "\\xff\\xff\\xff\\xff\\xff\\xff" in k for k, p in conds)
-        not_self = any((not p) and "[6:12] ==" in k and "mac_address" in k for k, p in conds)
-        ok = own_dst or (bcast and not_self)
-        ctx.ob("C04.filter", raw.short(), f"callback#{i}", ok,
-               "receive callback guarded by: " + "; ".join(("" if p else "not ") + k for k, p in conds if "[" in k)
-               + (" - accepted frames must be addressed to our MAC, or be broadcasts not sent by us" if not ok else ""),
-               f"{raw.module.rel}:{c.lineno}")
-        arg = unparse(c.args[0]) if c.args else ""
-        ctx.ob("C04.filter", raw.short(), f"callback#{i}:payload", arg.endswith("[14:]"),
-               f"callback receives `{arg}` (ethernet header of 14 octets must be stripped)", f"{raw.module.rel}:{c.lineno}")
+        local_names = set(st.defs)
+        frame = fl.expand(ast.Name(id=frame_var, ctx=ast.Load()), st)
+        own = fl.expand(ast.parse("self.mac_address", mode="eval").body, st)
+
+        def field(lo, hi):
+            return ast.Subscript(value=copy.deepcopy(frame), slice=ast.Slice(lower=ast.Constant(lo), upper=ast.Constant(hi)),
+                                 ctx=ast.Load())
+
+        def eq(a, b):
+            return formula(ast.Compare(left=a, ops=[ast.Eq()], comparators=[b]))
+        to_us = eq(field(0, 6), own)
+        foreign_bcast = ("and", [eq(field(0, 6), ast.Constant(BCAST)), ("not", eq(field(6, 12), own))])
+        goal = ("or", [to_us, foreign_bcast])
+        guards = relevant(guard_formulas(P, fl, st, local_names), goal)
+        accepted.append(("and", guards))
+        shown.append(f"line {c.lineno}: " + (" and ".join(f_show(g) for g in guards) or "no test of the address fields"))
+        if implies(guards, goal) is not True:
+            bad_guard.append(f"line {c.lineno}")
+        # payload: the frame without its 14-octet ethernet header
+        arg = fold_consts(P, raw.module, fl.expand(c.args[0], st), local_names) if c.args else None
+        ok = isinstance(arg, ast.Subscript) and isinstance(arg.slice, ast.Slice) and sem.cx(arg.value) == sem.cx(frame) \
+            and arg.slice.step is None and isinstance(arg.slice.lower, ast.Constant) and arg.slice.lower.value == 14 \
+            and (arg.slice.upper is None or sem.same(arg.slice.upper, ast.Call(func=ast.Name(id="len", ctx=ast.Load()),
+                                                                               args=[copy.deepcopy(frame)], keywords=[])))
+        if not ok:
+            bad_payload.append(f"line {c.lineno}: `{sem.cx(arg) if arg is not None else ''}`")
+    # one obligation per clause of the filter (the number of callback call sites is free: one merged test or several)
+    ctx.ob("C04.filter", raw.short(), "rejects-unaddressed", not bad_guard,
+           "address guards of the callback calls - " + "; ".join(shown) +
+           ("" if not bad_guard else " - the guards at " + ", ".join(bad_guard) + " do not imply `destination == own MAC or "
+            "(destination == broadcast and source != own MAC)`: accepted frames must be addressed to our MAC, or be broadcasts not sent by us"),
+           f"{raw.module.rel}:{cbs[0].lineno}")
+    for disc, case, what in (("accepts:unicast-to-us", to_us, "frames addressed to our MAC"),
+                             ("accepts:foreign-broadcast", foreign_bcast, "broadcasts of other stations")):
+        ok = implies([case], ("or", accepted))
+        ctx.ob("C04.filter", raw.short(), disc, ok is True,
+               what + (" are compatible with the address guards of some callback call (necessary for delivery)" if ok else
+                       " are excluded by the address guards of every callback call (" + " | ".join(shown) + ")"), raw.loc)
+    ctx.ob("C04.filter", raw.short(), "payload", not bad_payload,
+           "every callback receives the frame read from the socket with its ethernet header of 14 octets stripped" if not bad_payload
+           else "callback payload is not `<frame>[14:]`: " + "; ".join(bad_payload), f"{raw.module.rel}:{cbs[0].lineno}")
     ctx.floor("C04.filter", 4)
